@@ -5,7 +5,7 @@ import json, os, sys
 ROOT = os.path.dirname(os.path.dirname(os.path.abspath(__file__)))
 
 # property id -> (technique, level text, level note, design ref)
-BUILT = ["C01","C02","C03","C04","C05","C06","C07","C08","C09","C10","C11","C12","C13","C14"]
+BUILT = ["C01","C02","C03","C04","C05","C06","C07","C08","C09","C10","C11","C12","C13","C14","C15","C16","C17","C18","C19"]
 
 X = "exploration"
 CHECKS_ALL = {
@@ -65,6 +65,26 @@ CHECKS_ALL = {
          "All 55,987 kind strings of length <= 6 over {R(e=1), R(e=2), S, V, O(3), O(18)} and random lists to 500 messages: groups tile 0..n, count == span, maximal runs with status/VCP singletons, continued iff an earlier radial group shares the elevation, per-group data-type counts, first/last azimuth and time, min/max time over radial+status messages, VCP set, status/VCP info mirrors.",
          "Message dates >= 2; status coded fields inside their documented domains; VOL VCP numbers in the six the crate names.",
          "DESIGN.md §2 C14"),
+ "C15": ("exhaustive enumeration of bucket shapes through the real rotated search (hooked, in memory, counting probe closure) + get_latest_volume against the loopback S3 simulator with a request log",
+         "(a) every shape (newest index, populated count) for sizes 1..=64 and all 998,002 shapes at the production size 999 are run through the real search routine with distinct upload times, plus non-uniform time gaps to show only order type matters: result must be the newest populated directory, probes <= n + 3*ceil(log2(n+1)) + 4, indices < n. (b) get_latest_volume runs over HTTP against simulated 999-directory buckets (36 corner shapes + seeded): returned volume, reported calls == LIST requests logged, every LIST max-keys=1 with prefix SITE/<1..=999>/.",
+         "Populated directories form one contiguous run ending at the newest, upload times distinct (the statement's precondition). Hooks: verif_hooks::search, endpoint override.",
+         "DESIGN.md §2 C15"),
+ "C16": ("exhaustive enumeration of the 999 x 55 position space and the full successor cycle; seeded valid archive names against the integer calendar; panic monitor on a Unicode string grammar",
+         "Every (volume, sequence) position x 3 prefixes parses back (sequence, type, prefix), derives all 55 other sequences keeping site/volume/prefix, and has the reference successor; the 54,945-step successor walk visits every position once and closes, never naming volume 0 or 1000; 20k valid archive names recover site and instant exactly; 120k arbitrary Unicode strings (multi-byte characters straddling the slice offsets) never panic and give None where the text unambiguously does not parse.",
+         "name_prefix / with_sequence / next_chunk are only called on well-formed names (they are outside the statement's totality clause).",
+         "DESIGN.md §2 C16"),
+ "C17": ("loopback S3 simulator (real reqwest client through the endpoint hook) with scripted bucket contents, status plans and a full request log; reference model of ListObjectsV2 prefix/max-keys/truncation semantics; panic monitor",
+         "Scenarios: archive and real-time listings of 0..1100 objects with XML-special, non-ASCII and nested keys, sizes to 2^64-1 and unparsable, timestamps with/without fractions, sibling prefixes; garbled, truncated and errored listing bodies; archive and real-time downloads of 0 B..4 MiB with statuses 200/404/403/500/301, missing Last-Modified, short and unrecognised chunk bodies. Oracle: identifiers one per object under the prefix in bucket order named by the final path segment and stamped with LastModified; truncated archive listing and unparsable size are errors; exactly one GET of the right key; bytes, Last-Modified and identifier preserved; 404 => not-found error; other status => error; never a panic.",
+         "The simulator answers like S3 (entity-escaped text, sibling elements); only URL-safe names are downloaded.",
+         "DESIGN.md §2 C17"),
+ "C18": ("offline checker over recorded histories (requests, deliveries with logical timestamps, statistics, return value, virtual time) of the real poll_chunks run under tokio's paused clock against the S3 simulator; uploader schedule keyed to request counts; stop/drop injected at simulator sync points",
+         "Each scenario scripts an upload history (start volume incl. 997/998/999/1, 1..=55 chunks present, per-chunk visibility delays and transient 404/500/403/503 within the retry budget, next volumes appearing after 0..9 empty listings with 1..3 chunks) and a termination (a chunk or a volume that never appears; stop at the j-th download; consumer dropped at the j-th download; stop before start). The checker requires: first delivery = newest chunk at start; strictly consecutive deliveries, next volume in rotation after 55 (999->1); no duplicate; payload byte-identical, labelled with its own key and upload time; every object GET is for the next expected chunk (exact, by logical time); LatestVolumeCalls and NewChunk.calls equal the logged requests; never => ExpectedChunkNotFound after exactly 5 GETs / 10 LISTs and the specified virtual backoff; stop => Ok with at most one further delivery; drop => PollingAsyncError; no hang, no runaway.",
+         "The directory after the newest volume is empty until uploaded (statement's model). Wall time only feeds the hang rule (60 s without any request and no return). One delivery may be in flight when the stop is enqueued (checker allows 1+1).",
+         "DESIGN.md §2 C18"),
+ "C19": ("reference-model monitor: exhaustive resolution patterns through the real mapping on real decoded VCP messages; rolling-window VecDeque model for the timing statistics; estimates queried after every history prefix",
+         "All 2,047 half-degree patterns of 0..=10 cuts (and random lists to 32 cuts) x sequences 1..=200 must map by prefix sums (6 chunks per half-degree cut, else 3), monotone, none for chunk 1 and beyond the last cut. Estimates are queried for previous sequences 0..=60 after every prefix of recorded histories (0..50 samples, durations 0..60 s, attempts 1..5, interleaved keys), with and without statistics and upload time: none where unspecified; +10 s after an end chunk; mean of the last ten durations + (mean attempts - 1) s within the rounding band; else 11/7/4 s; never before the upload time; get_statistics equals the window model.",
+         "Rounding of the two means is not fixed by the statement: anything in [floor, ceil] is accepted.",
+         "DESIGN.md §2 C19"),
 }
 CHECKS = {k: v for k, v in CHECKS_ALL.items() if k in BUILT}
 
